@@ -347,7 +347,7 @@ pub fn exec(fields: &[&str]) -> String {
                         // the call runs on a thread of its own: a rotation thread that died before it
                         // set `ready` makes `roll` wait for ever
                         let (ro, pa) = (roller.clone(), path.clone());
-                        let res = run_with_timeout(4, move || guarded(std::panic::AssertUnwindSafe(|| ro.roll(&pa))));
+                        let res = run_with_timeout(30, move || guarded(std::panic::AssertUnwindSafe(|| ro.roll(&pa))));
                         let kind = match res {
                             Some(Ok(Ok(()))) => "ok",
                             Some(Ok(Err(_))) => "err",
